@@ -77,7 +77,8 @@ func addC18Conc(t *testing.T, e *Env, cf *CaseFile) {
 			explained := true
 
 			for _, h := range run.slotHistories() {
-				if _, verdict := linearize(h); verdict == "illegal" {
+				// (known finding K1 of C08 concerns the janitor, not Delete: it does not count here)
+				if _, verdict := linearize(h); verdict == "illegal" && !knownK1(fl, h) {
 					explained = false
 				}
 			}
